@@ -245,7 +245,7 @@ open GV.NoSync in
 def showVal : Val → String
   | .unit => "ok"
   | .ran n => s!"ok:{n}"
-  | .loaded v ok => s!"ok:{showOpt v},{ok}"
+  | .loaded v ok => s!"ok:{showOpt (if v = some 0 then none else v)},{ok}"     -- value code 0 = the nil interface
   | .pairs l => "ok:" ++ (if l.isEmpty then "-" else ",".intercalate (l.map fun p => s!"{p.1}={p.2}"))
   | .calls n => s!"ok:calls={n}"
   | .item x => s!"ok:{showOpt x}"
